@@ -121,6 +121,10 @@ class ListOrdering(Ordering):
         return var in self.ordering
 
     def cmp(self, x, y):
+        for var in (x, y):
+            if var not in self.ordering:
+                raise RuntimeError('%s in not in %s' % (var, self))
+
         return self.ordering[x]-self.ordering[y]
 
     def get_list(self):
